@@ -425,6 +425,8 @@ def slice_C02(ctx):
         tuples.append((d, fl, pat, inp, "", "fixedrep"))
     for d, fl, pat, inp, _ in revisit_stream(ctx, ctx.n(3000, 30000)):
         tuples.append((d, fl, pat, inp, "", "revisit"))
+    for d, fl, pat, inp, _ in overlap_prefix_stream(ctx, ctx.n(2000, 20000)):
+        tuples.append((d, fl, pat, inp, "", "overlap-prefix"))
     # overlapping alternatives / greedy vs reluctant followed by optional terms
     hand = ["a|ab", "ab|a", "(?:a|ab)(?:c|bcd)", "a*?b?", "a+?b*", "(?:ab|a)(?:b|bc)?", "a{1,2}?a", "(?:a|b)*?b",
             "(?:aa|a)+", "(?:a|aa)+?b", ASTRAL + "|a", "[ab" + ASTRAL + "]+?" + ASTRAL, "a.b", "(?:.a|a.)"]
@@ -806,6 +808,24 @@ def fixedrep_stream(ctx, count, repl=""):
     return out
 
 
+def overlap_prefix_stream(ctx, count, repl=""):
+    """a pattern that begins with a literal of two or more characters which can overlap itself (aa, aba,
+    abab), on inputs where an occurrence of the literal is rejected by what follows and the leftmost
+    match starts inside that occurrence: aab+ on aaab; own generator state"""
+    rng = random.Random(ctx.seed * 86028121 + 17)
+    out = []
+    while len(out) < count:
+        x, y, z = rng.sample("abc", 3)
+        lit = rng.choice([x + x, x + y + x, x + y + x + y, x + x + x, x + x + y + x + x])
+        tail = rng.choice([y + "+", z, y + "?" + z, "[" + y + z + "]", y + z, "(?:" + y + "|" + z + z + ")", y + "{2}", "$"])
+        pat = lit + tail
+        for _ in range(4):
+            k = rng.randint(1, 3)
+            inp = rng.choice(["", z, y]) + x * rng.randint(0, 2) + lit[:rng.randint(1, len(lit))] * k + lit + rng.choice([y, z, y + z, y + y, ""]) + rng.choice(["", x, lit])
+            out.append(("xpath", rng.choice(["", "", "i"]), pat, inp, repl))
+    return out
+
+
 def revisit_stream(ctx, count):
     """a bounded min-0 repeat over a variable-length body that is entered more than once at the same
     offset (an optional or repeated term before it gives the position back) and must backtrack
@@ -1022,6 +1042,7 @@ def slice_C08(ctx):
     tuples += bigfollow_stream(ctx, ctx.n(3000, 30000), "[$1]")
     # the grammar of the end-to-end theorems (proved for the hook constructor: the shortcuts must not matter)
     tuples += grammar_tree_stream(ctx, ctx.n(4000, 40000), "[$1]")
+    tuples += overlap_prefix_stream(ctx, ctx.n(2000, 20000), "<$0>")
     # shapes that trigger each shortcut
     # (pattern text, a text it matches)
     heads = [("ab", "ab"), ("a", "a"), ("[ab]", "b"), ("\\d", "1"), ("^", ""), ("^a", "a"), (".", "b"), ("(a)", "a"),
